@@ -82,7 +82,11 @@ struct Val {
     enum Kind { EXACT_Q, EXACT_C, UNDEF, NANV, APPROX } kind;
     rational_class q;          // EXACT_Q
     std::complex<double> z;    // APPROX
+    bool from_cd = false;      // APPROX: the substituted expression is itself a ComplexDouble number
 };
+
+// does the queried expression contain floating point leaves?  (set per op by run_oracle)
+static bool g_inexact_input = false;
 
 static bool eval_at(const RCP<const Basic> &e, const map_basic_basic &m, Val &v)
 {
@@ -117,6 +121,7 @@ static bool eval_at(const RCP<const Basic> &e, const map_basic_basic &m, Val &v)
     // anything else: numeric evaluation; refuse when an infinity / nan hides inside
     try {
         std::complex<double> z = eval_complex_double(*r);
+        v.from_cd = is_a<ComplexDouble>(*r);
         if (std::isnan(z.real()) || std::isnan(z.imag()) || std::isinf(z.real()) || std::isinf(z.imag()))
             return false;
         if (std::abs(z) > 1e12)
@@ -146,8 +151,13 @@ static Truth truth_of(const std::string &q, const Val &v)
         return NO;
     }
     bool exq = v.kind == Val::EXACT_Q, exc = v.kind == Val::EXACT_C, ap = v.kind == Val::APPROX;
-    bool ap_nonreal = ap && std::fabs(v.z.imag()) > EPS;
-    bool ap_real = ap && std::fabs(v.z.imag()) < 1e-12;
+    // a ComplexDouble value with an imaginary part that is not exactly zero is a non-real number for the library
+    // (sign predicates false), however small that part is; with floating point leaves in the input a tiny non-zero
+    // imaginary part of an evaluated expression decides nothing
+    bool cd_nonreal = ap && v.from_cd && v.z.imag() != 0.0;
+    bool ap_nonreal = ap && (std::fabs(v.z.imag()) > EPS || cd_nonreal);
+    bool ap_real = ap && !cd_nonreal
+                   && (v.z.imag() == 0.0 || (!g_inexact_input && std::fabs(v.z.imag()) < 1e-12));
     double re = ap ? v.z.real() : 0.0;
     int sgn = exq ? (v.q > 0 ? 1 : (v.q < 0 ? -1 : 0)) : 0;
     if (q == "zero" || q == "nonzero") {
@@ -276,6 +286,10 @@ static void run_oracle(const std::string &q, tribool ans, const RCP<const Basic>
         return;
     }
     stat(is_true(ans) ? "answer-true" : "answer-false");
+    {
+        std::string ed = vsexp::dump(*e);
+        g_inexact_input = ed.find("(D ") != std::string::npos || ed.find("(CD ") != std::string::npos;
+    }
     if ((q == "rational" || q == "irrational") && is_a<Add>(*e)) {
         // a definite answer about a sum of two or more of the constants pi, E, GoldenRatio would settle an
         // open problem (e.g. the irrationality of pi + E): it cannot have been derived
@@ -351,6 +365,37 @@ static void run_oracle(const std::string &q, tribool ans, const RCP<const Basic>
     stat("oracle-points-tested", tested);
 }
 
+// an upper bound of the degree in x the expression has if it is a polynomial in x: max over sums, sum over
+// products, n * bound for a non-negative integer power; anything else counts 0 (if such a part depends on x the
+// expression is no polynomial and no derivative vanishes)
+static long poly_degree_bound(const Basic &b, const Basic &x)
+{
+    if (eq(b, x))
+        return 1;
+    if (is_a<Add>(b)) {
+        long m = 0;
+        for (auto &a : b.get_args())
+            m = std::max(m, poly_degree_bound(*a, x));
+        return m;
+    }
+    if (is_a<Mul>(b)) {
+        long m = 0;
+        for (auto &a : b.get_args())
+            m += poly_degree_bound(*a, x);
+        return m;
+    }
+    if (is_a<Pow>(b)) {
+        const Pow &p = down_cast<const Pow &>(b);
+        if (is_a<Integer>(*p.get_exp()) && down_cast<const Integer &>(*p.get_exp()).is_positive()
+            && mp_fits_slong_p(down_cast<const Integer &>(*p.get_exp()).as_integer_class())) {
+            long n = down_cast<const Integer &>(*p.get_exp()).as_int();
+            long d = poly_degree_bound(*p.get_base(), x);
+            return (n > 1000 || d > 1000) ? 100000 : n * d;
+        }
+    }
+    return 0;
+}
+
 // ------------------------------------------------------------------ run
 std::string hx_run(const std::string &line, std::string &oracle)
 {
@@ -384,8 +429,14 @@ std::string hx_run(const std::string &line, std::string &oracle)
                     continue;
                 RCP<const Basic> d = e;
                 bool zero = false;
+                long bound = poly_degree_bound(*e, *x);
+                if (bound > 60) {
+                    stat("polynomial-oracle-degree-too-large");
+                    continue;
+                }
+                int order = (int)std::max(16L, bound + 1);
                 try {
-                    for (int i = 0; i < 16 && !zero; i++) {
+                    for (int i = 0; i < order && !zero; i++) {
                         d = expand(d->diff(rcp_static_cast<const Symbol>(x)));
                         zero = eq(*d, *integer(0));
                     }
@@ -393,8 +444,8 @@ std::string hx_run(const std::string &line, std::string &oracle)
                     zero = true; // not differentiable here: no verdict
                 }
                 if (!zero) {
-                    oracle = "FAIL:polynomial:is_polynomial answered true but the 16th derivative with respect to "
-                             + x->__str__() + " is not zero";
+                    oracle = "FAIL:polynomial:is_polynomial answered true but the derivative of order " + tostr(order)
+                             + " (degree bound " + tostr(bound) + ") with respect to " + x->__str__() + " is not zero";
                     break;
                 }
             }
